@@ -47,6 +47,22 @@ alu_write_pc losing its instruction-set test; r_bank_select argument order; MPU 
 enter_hyp_mode not using branch_to; WFE trap order; mem_u_with_priv_* passing the wrong privilege on the byte path;
 8-byte accesses split in two in the hub; RFE write-back after the CPSR write; SRS in Non-secure state.
 """
+    if len(sys.argv) > 5 and sys.argv[5] == "more":
+        HARD += """Also used already: a hub-owned scratch buffer for reads; dropping straddling writes; 32-bit masking of hub
+addresses; lsr_c/asr_c delegation for shifts > 32; memoised register field reads; carry-out of thumb_expand_imm_c for one
+rotation; translating an unaligned load once; TTBR1 walks keeping TTBCR.N; long-descriptor start level for one T0SZ;
+take_reset ordering vs select_configurations; stale F/A snapshot in FIQ entry; swapped SCR bits in enter_hyp_mode;
+halfword transfers on the unaligned byte path; second Thumb halfword fetched with mem_a_get; alignment policy helper
+testing arch_version == 6; MPU subregion hit logic; sticky DFSR bits; POP write-back before the PC load; USAT/PKH shift
+decode without decode_imm_shift; GE write skipped when zero; multiply flag rules per architecture version; in_it_block
+masks; it_advance skipped in ARM state; ADCS/SBCS pc using the restored carry; coproc_accepted in System mode;
+cpsr_write_by_instr ordering of M and F or IT bit ranges; STM^/LDM^ register banks in FIQ mode; Monitor-mode LR bank;
+UMLALS N flag wider than one bit; PUSH/POP aliases of STR/LDR losing a P/U/W test; LDRT Rm == Rt; BLX label alignment;
+TBB/TBH table base or accessor; a cached register-list helper returning a shared list; LDMDA base-in-list on v7;
+arm_expand_imm_c fast path for one rotation; SUBS pc,sp decode order; STR (register) pre-v6 Rm == Rn clause; IT AL skipped;
+last_cycle_owner configuration switch; module-level read buffer; per-instance Thumb fetch buffer; SCR object missing
+without the security extension; LR_und without wrap-around; divide-by-zero trap taken in place.
+"""
 for l in open('/verif/properties.jsonl'):
     p = json.loads(l)
     if p['id'] == pid:
